@@ -184,6 +184,7 @@ type PredSpec struct {
 	Body   Expr
 	Rec    bool
 	Line   string
+	Src    string
 }
 
 type GhostSpec struct {
@@ -797,7 +798,7 @@ func parseSpecFile(path string, pkgPath string) (*SpecFile, error) {
 				return fail(err)
 			}
 			p := &parser{toks: toks}
-			ps := &PredSpec{Pkg: pkgPath, Line: rc.line}
+			ps := &PredSpec{Pkg: pkgPath, Line: rc.line, Src: rest}
 			perr := func() (err error) {
 				defer func() {
 					if r := recover(); r != nil {
